@@ -59,7 +59,7 @@ theorem readOnly_evalFloatInfix (op : String) (l r : Obj) : ReadOnly (evalFloatI
 theorem readOnly_evalStringInfix (op : String) (l : Grol.Wire.Bytes) (r : Obj) : ReadOnly (evalStringInfix op l r) := by
   unfold evalStringInfix
   split
-  · exact ReadOnly.pure _
+  · exact ReadOnly.bind (readOnly_mustBeOk _) fun _ => ReadOnly.pure _
   · split
     · exact ReadOnly.pure _
     · exact ReadOnly.bind (readOnly_mustBeOk _) fun _ => by split <;> exact ReadOnly.pure _
